@@ -11,11 +11,13 @@ def run(chk):
     from . import lockset
     lockset.lock_discipline(chk, "C09", ["success_count", "failure_count"], cls_key="concurrency.models.ExecutionCounters")   # the counters the policy reads are updated and read under their lock
     X.reason_consistency(chk, "C09")
+    X.from_items_contract(chk, "C09")   # the contract of from_items used by _create_result / replay: counts per status wired to the classifier
     X.create_result_items(chk, "C09")
     X.replay_items(chk, "C09")
     X.execute_structure(chk, "C09")
     X.item_in_child_context(chk, "C09")
     X.on_task_complete(chk, "C09", want=("C07",))
+    X.execute_item_contracts(chk, "C09")   # branch i runs the user's function on item i; the policy presets are what their names say
     from . import misc_contracts
     misc_contracts.models_transitions(chk, "C09")   # incl. publish order: what _create_result reads without a lock is consistent after every single store
     from . import batch_accessors
